@@ -30,13 +30,13 @@ FILES = {
     'mido/messages/specs.py': 'C01 C02 C03 C04',
     'mido/messages/strings.py': 'C14 C03',
     'mido/tokenizer.py': 'C04 C05 C06 C18 C19',
-    'mido/parser.py': 'C04 C05 C06 C10 C18',
-    'mido/ports.py': 'C11 C10 C18',
+    'mido/parser.py': 'C04 C05 C06 C18 C10',
+    'mido/ports.py': 'C11 C18 C10',
     'mido/sockets.py': 'C18 C11',
     'mido/syx.py': 'C19',
     'mido/frozen.py': 'C15 C12',
     'mido/midifiles/meta.py': 'C09 C17 C07 C08 C14',
-    'mido/midifiles/midifiles.py': 'C07 C08 C13 C16 C17',
+    'mido/midifiles/midifiles.py': 'C07 C08 C13 C17 C16',
     'mido/midifiles/tracks.py': 'C12 C16 C14 C13',
     'mido/midifiles/units.py': 'C13',
     'mido/backends/backend.py': 'C20',
@@ -221,8 +221,6 @@ def main():
     jobs = []
     idx = 0
     for rel, checks in FILES.items():
-        if not any(fnmatch.fnmatch(rel, g) for g in a.files):
-            continue
         src = subprocess.run(['git', '-C', REPO, 'show', f'HEAD:{rel}'],
                              stdout=subprocess.PIPE, text=True,
                              check=True).stdout
@@ -234,6 +232,8 @@ def main():
             idx += 1
             jobs.append((idx, rel, lineno, desc, new_src, checks.split(),
                          a.procs))
+    # ids are global (independent of --files) so that runs can be resumed
+    jobs = [j for j in jobs if any(fnmatch.fnmatch(j[1], g) for g in a.files)]
     if a.second_pass:
         ALL = [f'C{i:02d}' for i in range(1, 21)]
         alive = {}
